@@ -151,7 +151,7 @@ func driverRunX(c *core.Ctx, id string, work string, idx int, managed bool, r *r
 				// the flush happens at the very moment a reader of the invariance check pins the
 				// memtables: between what that reader looked at before and what it looks at next the
 				// data moves from the memtable list to a level-0 table
-				n := w.FlushAtPin(func() {
+				n := w.FlushAtPinAfter(r.Intn(3)*r.Intn(120), func() {
 					st := w.CheckInvariance("flush-at-pin")
 					c.Count("invariance.reads_checked", st.Gets+st.IterItems)
 				})
